@@ -58,7 +58,8 @@ def c12(tier):
     n = 600 if tier == "thorough" else 160
     cfgs = [{"backend": "fd", "mode": "strict", "pe": 1}, {"backend": "mmap", "mode": "strict", "pe": 1},
             {"backend": "fd", "mode": "strict", "pe": 1}, {"backend": "fd", "mode": "alo", "pe": 2}]
-    behs = PE.load_corpus_files("C12") + _c12_corpus(n, C.seed(), cfgs) + G.corpus("oreclaim", "tiny", max(20, n // 8), C.seed(), cfgs=cfgs, prefix="orc_")
+    behs = PE.load_corpus_files("C12") + _c12_corpus(n, C.seed(), cfgs) + G.corpus("oreclaim", "tiny", max(20, n // 8), C.seed(), cfgs=cfgs, prefix="orc_") \
+        + G.corpus("freclaim", "tiny", max(16, n // 10), C.seed(), cfgs=cfgs, prefix="frc_")
     # one behaviour per process: the block/file trackers are process-global and keyed by block id
     traces, verd, stats = ck.run_and_validate(behs, "tiny", chunk=1, drop=())
     byid = {b["id"]: b for b in behs}
